@@ -60,6 +60,17 @@ pub struct ToolEnv {
 }
 
 impl ToolEnv {
+    /// Tool environment with explicit output limits (preview limit, artifact cap).
+    pub fn with_limits(root: &Path, max_bytes: usize, artifact_max_bytes: usize) -> Result<ToolEnv, String> {
+        let rt = tokio::runtime::Builder::new_current_thread().enable_all().build().map_err(|e| format!("runtime: {e}"))?;
+        let registry = Arc::new(ToolRegistry::default());
+        let cfg = BuiltinToolConfig { workspace_root: root.to_path_buf(), max_bytes, artifact_max_bytes, ..BuiltinToolConfig::default() };
+        register_builtin_tools(&registry, cfg);
+        let hook = ripd::verif_api::WorkspaceCheckpointHook::new(root.to_path_buf()).map_err(|e| format!("hook: {e}"))?;
+        let runner = Arc::new(ToolRunner::with_checkpoint_hook(registry, 4, Arc::new(hook)));
+        Ok(ToolEnv { rt, runner, root: root.to_path_buf(), seq: 0, session: "sess-1".to_string() })
+    }
+
     pub fn new(root: &Path) -> Result<ToolEnv, String> {
         let rt = tokio::runtime::Builder::new_current_thread()
             .enable_all()
